@@ -677,7 +677,7 @@ Definition ev_justified (W : world) (o : list vote) (u : vidx) (ev : evidence) :
   (forall b, In b (ev_s2n ev) ->
      s2n_stake W o b = true /\
      (cast o (fst b) KSkip u = true \/ cast_notar_other o (fst b) (snd b) u = true) /\
-     exists p, w_parent W b = Some p /\ nf_cert W o p = true) /\
+     exists p, w_parent W b = Some p /\ (nf_cert W o p = true \/ p = genesis)) /\
   (forall s, In s (ev_s2s ev) -> cast_any_notar o s u = true /\ s2s_stake W o s) /\
   (forall b p, In (b, p) (ev_blocks ev) -> w_parent W b = Some p).
 
